@@ -4,7 +4,10 @@ use serde_json::{json, Map, Value};
 use std::collections::{BTreeMap, BTreeSet};
 use std::path::{Path, PathBuf};
 
-pub const VERIF_DIR: &str = "/verif";
+pub fn verif_dir() -> PathBuf {
+    // /verif unless a background run from a snapshot says otherwise
+    PathBuf::from(std::env::var("VERIF_DIR").unwrap_or_else(|_| "/verif".into()))
+}
 
 pub struct Evidence {
     pub property_id: String,
@@ -64,6 +67,10 @@ impl Evidence {
     }
 
     pub fn write(&self) -> std::io::Result<PathBuf> {
+        if std::env::var("VERIF_NO_EVIDENCE").is_ok() {
+            // self-tests run the checks with other seeds: they must not replace the evidence
+            return Ok(PathBuf::new());
+        }
         let wall = self.wall_s();
         let mut coverage = Map::new();
         coverage.insert("evaluations".into(), json!(self.evaluations));
@@ -96,7 +103,7 @@ impl Evidence {
             "wall_s": (wall * 1000.0).round() / 1000.0,
             "violations": self.violations,
         });
-        let dir = Path::new(VERIF_DIR).join("evidence");
+        let dir = verif_dir().join("evidence");
         std::fs::create_dir_all(&dir)?;
         let path = dir.join(format!("{}.json", self.property_id));
         std::fs::write(&path, serde_json::to_string_pretty(&doc).unwrap() + "\n")?;
@@ -106,7 +113,7 @@ impl Evidence {
 
 /// Write a replay file and return its path.
 pub fn write_replay(property_id: &str, seed: u64, case: &str, body: Value) -> PathBuf {
-    let dir = Path::new(VERIF_DIR).join("replays");
+    let dir = verif_dir().join("replays");
     let _ = std::fs::create_dir_all(&dir);
     let safe: String = case
         .chars()
@@ -130,7 +137,7 @@ pub struct KnownFinding {
 }
 
 pub fn load_known_findings() -> Vec<KnownFinding> {
-    let path = Path::new(VERIF_DIR).join("known_findings.json");
+    let path = verif_dir().join("known_findings.json");
     let Ok(text) = std::fs::read_to_string(&path) else {
         return vec![];
     };
